@@ -10,7 +10,7 @@ LEVEL = "exploration"
 RULE = (
     "seeded Tasklang programs (sync re-entry, items whose value() is taken synchronously, failures, several batch "
     "kinds with unique priorities so that the default trace is deterministic, DebugBatchItems, contexts, scoped "
-    "reads) are run under the default debug options and then under option subsets: each of the 19 boolean options "
+    "reads; one program in twelve yields dicts / lists / tuples of 241-520 futures, wider than the 240 characters at which dumps truncate) are run under the default debug options and then under option subsets: each of the 19 boolean options "
     "alone (flipped from its default), all DUMP_* on, everything flipped, and seeded random subsets; with "
     "DUMP_SCHEDULER_STATE the dump interval is 0 so the dump code really runs; with COLLECT_PERF_STATS a scripted clock "
     "assigned to asynq.scheduler.utime reports per-call elapsed times from 1 microsecond to 3 hours. Diagnostics go to a "
@@ -142,6 +142,37 @@ def _after_sync_probe(rt, fr, ok):
     rt.emit("active_task_after_sync_call_is_me", fr.path, mine is not None and t is mine)
 
 
+def wide_program(rnd):
+    """Yields and results far wider than the length at which the dump helpers truncate what they print (240)."""
+    n = rnd.choice([241, 260, 300, 520])
+
+    def leaf(j):
+        if j % 50 == 7:
+            return ["leaf", ["item", j % 2, "wk%d" % j]]
+        if j % 60 == 11:
+            return ["leaf", ["call", "wc%d" % j, 1]]
+        return ["leaf", ["const", j]]
+
+    shape = rnd.choice(["dict", "dict", "list", "tuple"])
+    if shape == "dict":
+        big = ["dict", [["d%d" % j, leaf(j)] for j in range(n)]]
+    else:
+        big = [shape, [leaf(j) for j in range(n)]]
+    other = ["dict", [["e%d" % j, ["leaf", ["const", -j]]] for j in range(n)]]
+    return {
+        "nodes": [
+            {"style": "asynq", "ret": rnd.choice(["return", "result"]), "body": [["yield", big], ["yield", ["leaf", ["item", 0, "wlast"]]], ["yield", other]]},
+            {"style": "asynq", "ret": "return", "body": [["yield", ["leaf", ["item", 1, "wchild"]]]]},
+        ],
+        "root": 0,
+        "shared": [],
+        "kinds": 2,
+        "faults": {},
+        "flush_faults": {},
+        "defaults": {"sv0": "dflt-sv0", "sv1": "dflt-sv1", "at0": "dflt-at0"},
+    }
+
+
 def run_once(prog, how, seed, settings, clock, outfile, in_thread=False):
     """One run of the program under the given option settings. in_thread: on a brand-new thread (fresh
     thread-local scheduler / profiler state, no profiler.reset() beforehand), as a worker thread would run it."""
@@ -223,6 +254,9 @@ def run_unit(unit, progress):
         cs = tl.case_seed(unit["seed"], ID, i)
         rnd = random.Random(cs)
         prog = gen.generate(cs, PROFILE)
+        if i % 12 == 5:
+            prog = wide_program(rnd)
+            inc("wide_programs")
         how = ["call", "value", "yielded", "yielded_value"][i % 4]
         # one program in three runs - under every option setting - on a brand-new thread each time
         thr = i % 3 == 1
